@@ -126,11 +126,11 @@ __CPROVER_ensures(self->Terms.gpresent ==> (__CPROVER_return_value == &TS_G.seco
 __CPROVER_ensures(!self->Terms.gpresent ==> (__CPROVER_return_value == &g_newlist && g_newlist.size == 0 && g_newlist_calls == 1))
 //@end
 
-//@harness h_TS_addTerm enforce=Lattice_TermStorage_addTerm props=C20 min_obl=577 reach=1 objbits=8 timeout=60
+//@harness h_TS_addTerm enforce=Lattice_TermStorage_addTerm props=C20 min_obl=571 reach=1 objbits=8 timeout=60
 void h_TS_addTerm(void) { struct Lattice_TermStorage *s; struct Lattice_Term *t; Lattice_TermStorage_addTerm(s, t); REACH("exit"); }
-//@harness h_TS_getMaxTermOrder enforce=Lattice_TermStorage_getMaxTermOrder props=C20 min_obl=34 reach=1 objbits=8 timeout=60
+//@harness h_TS_getMaxTermOrder enforce=Lattice_TermStorage_getMaxTermOrder props=C20 min_obl=33 reach=1 objbits=8 timeout=60
 void h_TS_getMaxTermOrder(void) { struct Lattice_TermStorage *s; Lattice_TermStorage_getMaxTermOrder(s); REACH("exit"); }
-//@harness h_TS_getTerms enforce=Lattice_TermStorage_getTerms props=C20 min_obl=73 reach=1 objbits=8 timeout=60
+//@harness h_TS_getTerms enforce=Lattice_TermStorage_getTerms props=C20 min_obl=72 reach=1 objbits=8 timeout=60
 void h_TS_getTerms(void) { struct Lattice_TermStorage *s; unsigned int n; Lattice_TermStorage_getTerms(s, n); REACH("exit"); }
 
 /* ================= Lattice ================= */
@@ -168,7 +168,7 @@ __CPROVER_assigns(i, VERIF_thrown)
 __CPROVER_loop_invariant(i <= N && N == T->N && !VERIF_thrown && VALID_UPTO(T, i))
 __CPROVER_decreases(N - i)
 //@end
-//@harness h_Lattice_addTerm enforce=Lattice_addTerm replace=Lattice_TermStorage_addTerm props=C20 min_obl=2166 reach=4 objbits=8 timeout=90
+//@harness h_Lattice_addTerm enforce=Lattice_addTerm replace=Lattice_TermStorage_addTerm props=C20 min_obl=2144 reach=4 objbits=8 timeout=90
 void h_Lattice_addTerm(void) { struct Lattice *l; struct Lattice_Term *t; Lattice_addTerm(l, t); if (VERIF_thrown) REACH("thrown"); else if (g_newterm_calls) REACH("stored"); else REACH("ignored"); REACH("exit"); }
 
 //@function Pomerol::Lattice::getSite(std::__cxx11::basic_string<char, std::char_traits<char>, std::allocator<char> > const&) const as Lattice_getSite
@@ -181,7 +181,7 @@ __CPROVER_assigns(VERIF_thrown)
 __CPROVER_ensures(VERIF_thrown == (LM->gk < 0))
 __CPROVER_ensures(!VERIF_thrown ==> __CPROVER_return_value == &SM_gsite)
 //@end
-//@harness h_Lattice_getSite enforce=Lattice_getSite props=C20 min_obl=287 reach=3 objbits=8 timeout=60
+//@harness h_Lattice_getSite enforce=Lattice_getSite props=C20 min_obl=284 reach=3 objbits=8 timeout=60
 void h_Lattice_getSite(void) { struct Lattice *l; label_t lab; Lattice_getSite(l, lab); if (VERIF_thrown) REACH("thrown"); else REACH("found"); REACH("exit"); }
 
 /* ---- addSite: compiled with -DSM_INSERT_MODEL (std::map operator[] as insertion cell, see stubs/sitemap.h) */
@@ -200,7 +200,7 @@ __CPROVER_assigns(SM_ins_slot, SM_ins_label, SM_ins_calls, g_newsite, g_newsite_
 __CPROVER_ensures(SM_ins_calls == 1 && SM_ins_label == Label && SM_ins_slot == &g_newsite && g_newsite_calls == 1)
 __CPROVER_ensures(g_newsite.Label == Label && g_newsite.OrbitalSize == orbitals && g_newsite.SpinSize == spins)
 //@end
-//@harness h_Lattice_addSite1 enforce=Lattice_addSite1 props=C20 min_obl=44 reach=1 objbits=8 defs=-DSM_INSERT_MODEL timeout=60
+//@harness h_Lattice_addSite1 enforce=Lattice_addSite1 props=C20 min_obl=43 reach=1 objbits=8 defs=-DSM_INSERT_MODEL timeout=60
 void h_Lattice_addSite1(void) { struct Lattice *l; struct Lattice_Site *s; Lattice_addSite1(l, s); REACH("exit"); }
 //@harness h_Lattice_addSite3 enforce=Lattice_addSite3 props=C20 min_obl=61 reach=1 objbits=8 defs=-DSM_INSERT_MODEL timeout=60
 void h_Lattice_addSite3(void) { struct Lattice *l; label_t lab; unsigned short o, s; Lattice_addSite3(l, lab, o, s); REACH("exit"); }
